@@ -1,19 +1,27 @@
 // Unit c03_fungible_supply -- property C03 "Every committed transaction conserves resources", at the level of
-// the FUNGIBLE RESOURCE MANAGER: minting and burning change the recorded total supply by exactly the amount
-// put into / taken out of circulation (the new / dropped bucket), and nothing else.
+// the FUNGIBLE RESOURCE MANAGER and of the public take / put of its vaults and buckets:
+//  * minting and burning change the recorded total supply by exactly the amount put into / taken out of
+//    circulation (the new / dropped bucket), and nothing else;
+//  * a withdrawal creates a bucket holding exactly what left the vault's (bucket's) balance, a deposit consumes a
+//    bucket and adds exactly its amount.
 // Real code: radix-engine/src/blueprints/resource/fungible/fungible_resource_manager.rs ::
 //     verify_divisibility, check_mint_amount, FungibleResourceManagerBlueprint::{mint, burn, package_burn,
 //     burn_internal, drop_empty_bucket, create_empty_bucket, create_bucket, get_total_supply,
 //     get_resource_type, assert_mintable, assert_burnable}
-//   radix-engine/src/blueprints/resource/bucket_common.rs :: drop_fungible_bucket
+//   radix-engine/src/blueprints/resource/fungible/fungible_vault.rs :: FungibleVaultBlueprint::{take, take_advanced,
+//     put, internal_take, internal_put, get_divisibility, assert_not_frozen}
+//   radix-engine/src/blueprints/resource/fungible/fungible_bucket.rs :: FungibleBucketBlueprint::{take,
+//     take_advanced, put, internal_take, get_divisibility}
+//   radix-engine/src/blueprints/resource/bucket_common.rs :: drop_fungible_bucket, From<BucketError> for RuntimeError
 //   radix-engine-interface/src/blueprints/resource/mod.rs :: check_fungible_amount
-//   radix-engine-interface/src/blueprints/resource/resource.rs :: LiquidFungibleResource::{new, amount},
-//     LockedFungibleResource::{is_locked, default}
-// run against a ghost-heap model of the SystemApi (env::SystemApi): the fields of the resource manager
-// (0 = Divisibility, 1 = TotalSupply, present iff feature TrackTotalSupply), the set of enabled features,
-// the live objects (buckets) with their fields, and the event log.
-// The vault / bucket side (internal_take / internal_put: bucket amount delta == vault balance delta) is
-// unit c10_vault_locks; the containers are unit c03_resource_containers.
+//   radix-engine-interface/src/blueprints/resource/resource.rs :: LiquidFungibleResource::{new, amount, is_empty,
+//     put, take_by_amount}, LockedFungibleResource::{is_locked, default}
+// run against a ghost-heap model of the SystemApi (env::SystemApi): fields keyed by (SELF | OUTER object, index)
+// -- resource manager as actor: 0 = Divisibility, 1 = TotalSupply (present iff feature TrackTotalSupply);
+// vault / bucket as actor: 0 = liquid balance, 1 = lock table, 2 = freeze status, OUTER 0 = Divisibility --
+// the set of enabled features, the live objects (buckets) with their fields, and the event log.
+// The lock accounting of vaults / buckets (proofs) is unit c10_vault_locks; the containers are unit
+// c03_resource_containers; the rounding of for_withdrawal is unit c25_rounding.
 use vstd::prelude::*;
 // radix-rust `indexmap!{ k => v, .. }` (radix-rust/src/rust.rs): a fresh IndexMap, the pairs inserted in order
 macro_rules! indexmap {
@@ -903,6 +911,9 @@ pub mod unit {
             ensures
                 ret is Ok ==> !frozen_for(old(api).state(), flags) && final(api).state().handles =~= old(api).state().handles,
                 frozen_for(old(api).state(), flags) ==> ret is Err,
+                // the blueprint itself refuses ONLY a vault that really is frozen for the operation
+                ret matches Err(e) ==> (e.is_application_error() ==> frozen_for(old(api).state(), flags)
+                    && e == RuntimeError::ApplicationError(ApplicationError::VaultError(VaultError::VaultIsFrozen))),
                 final(api).state().fields == old(api).state().fields, final(api).state().objects == old(api).state().objects,
                 final(api).state().events == old(api).state().events, final(api).state().features == old(api).state().features,
                 handles_kept(old(api).state().handles, final(api).state().handles),
